@@ -1,4 +1,4 @@
-import DoltVerif.Lemmas.RowMergeTotal
+import DoltVerif.Lemmas.RowMergeSchema
 /-!
 C29 — dolt_merge produces the row-level three-way merge.
 
@@ -278,6 +278,48 @@ theorem merge_symmetric (s : Schema) (hd : idsDistinct s = true) (base ours thei
     have hf : (specKey s (get base k) (get ours k) (get theirs k)).2 = false := by
       rw [← a.2]; simpa using hn
     rw [a.1, b.1, s2 hf]
+
+/-! ### rowmerge_schema: the cell-wise spec under a schema change (columns added anywhere, dropped, reordered) -/
+
+/-- **tryMerge_schema_spec.**  For the value merger of ANY successful schema merge of type-consistent
+schemas and well-typed rows, `TryMerge` IS the by-column-id specification `tryMergeSpec`: a conflict
+iff a dropped column's cell (or, with a deleted side, a kept base cell) was changed by the other
+side or some result cell was changed differently by both sides (`cellSpec`/`cellMerge`, cells
+looked up by column id in each side's own schema); otherwise the cell-wise combination in the
+result schema.  No raw-byte hypothesis is needed at this level. -/
+theorem tryMerge_schema_spec (base ours theirs msch : Schema) (fl : Flags)
+    (tc : TypeConsistent base ours theirs) (hs : schemaMerge base ours theirs = .ok (msch, fl))
+    (l r b : Option Row) (hl : okOpt ours l) (hr : okOpt theirs r) (hb : okOpt base b)
+    (hshape : (l.isSome ∧ r.isSome) ∨ (b.isSome ∧ (l.isSome ∨ r.isSome))) :
+    tryMerge ⟨base, ours, theirs, msch, false⟩ l r b =
+      .ok (tryMergeSpec ⟨base, ours, theirs, msch, false⟩ l r b) :=
+  tryMerge_schema _ (schemaMerge_vmok2 base ours theirs msch fl tc hs) l r b hl hr hb hshape
+
+/-- **rowmerge_schema_partial.**  For the configuration of any successful schema merge of
+type-consistent schemas (one-sided or not: additions at any position, drops, reorders), well-typed
+rows and a key free of raw-byte aliases (`NoRawByteAliasKey`: the differ's three byte-comparison
+shortcuts agree with the by-column-id specification — the hypothesis the known finding
+merge-reorder-rawbytes violates), the row path's merged row and conflict flag are exactly the
+by-column-id cell-wise specification `specSchemaKey`, both sides mapped into the result schema.
+`hidL`/`hidR` state that a side that needs no rewrite already has the result schema's layout. -/
+theorem rowmerge_schema_partial (base ours theirs msch : Schema) (fl : Flags)
+    (tc : TypeConsistent base ours theirs) (hs : schemaMerge base ours theirs = .ok (msch, fl))
+    (hidL : fl.leftNeedsRewrite = false → ∀ row, rowOk ours row = true → projRow msch ours row = row)
+    (hidR : fl.rightNeedsRewrite = false → ∀ row, rowOk theirs row = true → projRow msch theirs row = row)
+    (b l r : Option Row) (hb : okOpt base b) (hl : okOpt ours l) (hr : okOpt theirs r)
+    (na : NoRawByteAliasKey ⟨⟨base, ours, theirs, msch, false⟩, fl⟩ b l r) :
+    (mergeKeySlowG leftTypeSchemaInRightDeleteBranch ⟨⟨base, ours, theirs, msch, false⟩, fl⟩ b l r).map KeyOut.obs =
+      .ok (specSchemaKey ⟨⟨base, ours, theirs, msch, false⟩, fl⟩ b l r) :=
+  mergeKeySlow_schema_partial _ (schemaMerge_vmok2 base ours theirs msch fl tc hs) hidL hidR b l r hb hl hr na
+
+/-- non-vacuity: ours drops column 1 and edits column 2, theirs edits column 3 of the same row —
+the specification combines the cells in the result schema (2, 3) -/
+example :
+    tryMergeSpec ⟨[⟨1, .int⟩, ⟨2, .int⟩, ⟨3, .int⟩], [⟨2, .int⟩, ⟨3, .int⟩], [⟨1, .int⟩, ⟨2, .int⟩, ⟨3, .int⟩],
+        [⟨2, .int⟩, ⟨3, .int⟩], false⟩
+      (some [some (.int 20), some (.int 3)]) (some [some (.int 1), some (.int 2), some (.int 30)])
+      (some [some (.int 1), some (.int 2), some (.int 3)]) =
+    (some [some (.int 20), some (.int 30)], true) := by decide
 
 /-! ### statements compared on the implementation only (not proved) -/
 
